@@ -43,13 +43,20 @@ func c02Worlds(run *Run, n int) {
 			pd := w.AddPath(p.Path, schema.NewBodySchema(), map[string]string{}, nil)
 			pd.Ctx.ReferenceTargets = ts
 			pd.Ctx.ReferenceOrigins = os
+			if wi%2 == 1 {
+				// stored the way a language server's state store keeps them: as copies; the lookups below
+				// start from the stored origins
+				pd.Ctx.ReferenceTargets = ts.Copy()
+				pd.Ctx.ReferenceOrigins = os.Copy()
+				os = pd.Ctx.ReferenceOrigins
+			}
 			pd.Fail = i > 0 && r.Intn(2) == 0
 			pws = append(pws, pw{pd, ts, os})
 		}
 		loc := map[string]interface{}{"seed": run.Res.Seed, "world": wi, "kind": "c02-world"}
 		check := func(what, file, path, q string) {
-			if file == callerSupplied {
-				return
+			if file == callerSupplied && what != "origin range" {
+				return // the target range of a direct origin is the caller's own: passed through, not judged
 			}
 			run.Res.Hypotheses["world_ranges_checked"]++
 			if owner[file] != path {
